@@ -9,7 +9,15 @@ use std::sync::Arc;
 
 /// alphabetic binary operators on all three levels next to symbolic and sign-like ones
 pub fn call_table(pm: [i64; 3]) -> Arc<Table> {
-    Table::new(vec![
+    Table::new(call_ops(pm))
+}
+/// the same operators; the renderer may put *every* binary operator (symbolic and sign-like
+/// ones too) into call form
+pub fn call_table_all(pm: [i64; 3]) -> Arc<Table> {
+    Table::new_call_all(call_ops(pm))
+}
+fn call_ops(pm: [i64; 3]) -> Vec<OpDesc> {
+    vec![
         OpDesc::bin("mx", pm[0], false),   // 0
         OpDesc::bin("mn", pm[0], true),    // 1
         OpDesc::bin("av", pm[1], true),    // 2
@@ -21,7 +29,7 @@ pub fn call_table(pm: [i64; 3]) -> Arc<Table> {
         OpDesc::bin("<", pm[0], false),    // 8
         OpDesc::un("f"),                   // 9
         OpDesc::cst("C", 1000),            // 10
-    ])
+    ]
 }
 
 /// every subset of the alphabetic binary nodes in call form (no other deviation)
@@ -59,6 +67,13 @@ fn call_subsets_plus_one(r: &Renderer, tree: &Tree) -> Vec<Vec<u8>> {
     }
     out
 }
+fn has_bin(t: &Tree) -> bool {
+    match t {
+        Tree::Bin(..) => true,
+        Tree::Un(_, a) => has_bin(a),
+        _ => false,
+    }
+}
 fn has_alpha_bin(t: &Tree) -> bool {
     match t {
         Tree::Bin(k, a, b) => *k <= 3 || has_alpha_bin(a) || has_alpha_bin(b),
@@ -69,7 +84,7 @@ fn has_alpha_bin(t: &Tree) -> bool {
 
 pub fn run(tier: Tier) -> i32 {
     let mut rep = Report::new("C08", tier);
-    rep.rule = "all trees of the listed sizes over a table with alphabetic binary operators on three priority levels; for every subset of the alphabetic binary nodes the rendering with exactly those nodes in call form (plus, where stated, one further deviation), through parse, parse_wo_compile and DeepEx::parse; oracle: the reference tree (= the all-infix reading); distinct = distinct trees; non-trivial = at least one alphabetic binary node".into();
+    rep.rule = "all trees of the listed sizes over a table with alphabetic binary operators on three priority levels; for every subset of the alphabetic binary nodes (campaigns all-ops-*: of all binary nodes, symbolic and sign-like operators included) the rendering with exactly those nodes in call form (plus, where stated, one further deviation), through parse, parse_wo_compile and DeepEx::parse; oracle: the reference tree (= the all-infix reading); distinct = distinct trees; non-trivial = at least one alphabetic binary node".into();
     rep.assumptions = vec!["as C01".into()];
     let pipes = vec![Pipe::P, Pipe::W, Pipe::D];
     let mk = |name: &str, table: &Arc<Table>, a: Alphabet, sizes: Vec<(usize, usize)>, gen: fn(&Renderer, &Tree) -> Vec<Vec<u8>>, blanks: Vec<u8>| Campaign {
@@ -103,6 +118,22 @@ pub fn run(tier: Tier) -> i32 {
         cs.push(mk("n5-alpha-only", &t0, al(&[0, 3], &[], vec![Tree::lit(1), Tree::var("x")]), vec![(5, 0)], call_subsets, vec![0]));
         let t1 = call_table([1, 1, 1]);
         cs.push(mk("equal-prios-n3", &t1, al(&[0, 1, 2, 3, 5, 6], &[9], vec![Tree::lit(1), Tree::var("x"), Tree::var("y")]), vec![(3, 0), (3, 1)], call_subsets, vec![0]));
+    }
+    // every binary operator in call form (symbolic and sign-like operators too)
+    let ta = call_table_all([0, 1, 2]);
+    let mut all = |name: &str, table: &Arc<Table>, a: Alphabet, sizes: Vec<(usize, usize)>, gen: fn(&Renderer, &Tree) -> Vec<Vec<u8>>, blanks: Vec<u8>| {
+        let mut c = mk(name, table, a, sizes, gen, blanks);
+        c.filter = Some(has_bin);
+        cs.push(c);
+    };
+    all("all-ops-n2-n3", &ta, al(&[0, 1, 2, 3, 4, 5, 6, 7, 8], &[5, 9], leaves_std()), vec![(2, 0), (2, 1), (2, 2), (3, 0), (3, 1)], call_subsets_plus_one, vec![0, 1]);
+    if tier.thorough() {
+        all("all-ops-n4", &ta, al(&[0, 2, 4, 5, 6, 7, 8], &[5, 9], vec![Tree::lit(1), Tree::var("x"), Tree::var("y")]), vec![(3, 2), (4, 0), (4, 1)], call_subsets, vec![0]);
+        all("all-ops-n5", &ta, al(&[3, 4, 5, 6], &[5], vec![Tree::lit(1), Tree::var("x")]), vec![(5, 0)], call_subsets, vec![0]);
+        let ta1 = call_table_all([1, 1, 1]);
+        all("all-ops-equal-prios-n4", &ta1, al(&[0, 4, 5, 6, 7], &[5, 9], vec![Tree::lit(1), Tree::var("x"), Tree::var("y")]), vec![(3, 0), (3, 1), (4, 0)], call_subsets, vec![0]);
+    } else {
+        all("all-ops-n4-small", &ta, al(&[0, 4, 5, 6], &[5], vec![Tree::lit(1), Tree::var("x"), Tree::var("y")]), vec![(4, 0)], call_subsets, vec![0]);
     }
     deep_call_families(tier, &mut rep);
     for c in cs {
